@@ -306,7 +306,10 @@ func MakePlan(rng *rand.Rand, p *GenParams) *Plan {
 				if hi > M.Latest-1 {
 					hi = M.Latest - 1
 				}
-				if hi < M.First {
+				if rng.Intn(6) == 0 && M.First > 1 {
+					// a target that is already pruned (non-monotonic prune requests): a legal no-op
+					op.N = int64(rng.Intn(int(M.First)))
+				} else if hi < M.First {
 					if rng.Intn(3) != 0 {
 						continue
 					}
